@@ -209,6 +209,17 @@ def run(ctx, res):
                                             "RPSI: the leading 8 - ignored bits of the last string byte are the configured ones (bit-for-bit, for each ignored-bit count 0..8)",
                                             detail=f"ignored = {c}; read back {gotl!r}"[:200], pc=s5.pc)
     nack_encoder(F, D, res)
+    # the other half of the NACK round trip: the decoder's transition table (PID first, then PID+j only for a tested set
+    # bit j-1, j in 1..=16, nothing skipped) — the same rules C15 applies, reported here because the round trip needs them
+    from .c15 import decoders
+    fcis_ = {a.split("::")[-1].split("<")[0]: a for a in D.impls_of(FCI_PARSER)}
+    from ..interp import Unmodelled
+    try:
+        n_nd = decoders(F, D, res, {k: v for k, v in fcis_.items() if k == "Nack"})
+    except Unmodelled as ex:
+        res.unmodelled("NACK decoder", f"{ex}")
+        n_nd = 0
+    res.floor("NACK decoder transitions compared", n_nd, 3)
     res.floor("round-trip comparisons", n[0], 30)
     res.analysed = {"comparisons": n[0]}
     res.assumptions.append("not decided: NACK decoded set == requested set for every set (composition of two run-length state machines)")
